@@ -213,25 +213,30 @@ open Compress.Proofs.BrImpl Compress Compress.Brotli in
 theorem C02_compressed_header : PrefixCodesSim := Compress.Proofs.BrImpl.prefixCodesSim
 
 open Compress.Proofs.BrImpl Compress Compress.Brotli in
+/-- **Layer (f), the command loop.** From a model state ready for `readCommands` (tables, context maps, block decoders and ring corresponding to the specification's `Header`/`Cmd`, window = output so far with zero-initialised history, last distances within 16 of the largest allowed distance, window ≥ 2 bytes) the reader runs through the steps of `readCommands` — labels startCommand / readLiterals / readDistance / copyDynamicDict / copyStaticDict / finishCommand, suspension with the window flushed whenever it is full, re-entry through `stepState` — exactly like the specification's non-resumable `readCommands`: if that succeeds the model is at the next meta-block boundary with the same output, bit position and ring; if it fails so does the model, never with `io.EOF`, outputs agreeing (statement `CommandsSimZ` in Proofs/BrImplCmd.lean). -/
+theorem C02_command_loop (dict : ByteArray) (hdict : dict.size = 122784) : CommandsSimZ dict :=
+  Compress.Proofs.BrImpl.commands_sim dict hdict
+
+open Compress.Proofs.BrImpl Compress Compress.Brotli in
 /-- **Stream level (layers (b), (c) and the induction over meta-blocks).** Given the simulation of compressed meta-blocks, the reader model on `bytes` ends like the specification's `readStream`: accepted ⇒ `io.EOF` after exactly its output; rejected ⇒ another error with agreeing output. Stream header, meta-block headers, metadata and uncompressed meta-blocks (window writes, flushes at a full window, growth) and the end of the stream are handled here without hypotheses. -/
-theorem C02_stream_level (dict : ByteArray) (hC : CompressedSim dict) (bytes : List UInt8) :
+theorem C02_stream_level (dict : ByteArray) (hC : CompressedSimZ dict) (bytes : List UInt8) :
     Outcome dict (Impl.init bytes) [] (8 * bytes.length)
       (readStream dict { bits := Bits.ofBytes bytes, used := 0, out := #[] }) :=
   Compress.Proofs.BrImpl.stream_sim dict Compress.Proofs.BrImpl.winBitsSim hC bytes
 
 open Compress.Proofs.BrImpl Compress Compress.Brotli in
-/-- **C02, refinement theorem from the command-loop layer.** `hF : CommandsSim dict` is the one layer
-    not closed here: the simulation of `readCommands` (labels, window-full suspension and re-entry
-    through `stepState`) by the specification's non-resumable `readCommands`, from states related by
-    `CmdRel` (see Proofs/BrImplStreamDefs.lean for its exact statement).  Everything else — Read loop,
-    stream and meta-block headers, metadata and uncompressed meta-blocks, prefix tables and prefix code
-    definitions, context maps, block headers, the compressed meta-block header — is proved.
-    Conclusion, for every byte string and every schedule of Read sizes: the specification accepts ⇒ the
-    model delivers exactly its output and ends with `io.EOF` (and every unfinished run has delivered a
-    prefix); the specification rejects (and input bits + output bytes < 2^24: the specification caps a
-    single-type block at 2^24 symbols, the Go code and libbrotlidec do not) ⇒ the model ends with
-    another error and what it delivered agrees with the specification's output position by position. -/
-theorem C02_refines_spec_partial (dict : ByteArray) (hF : CommandsSim dict) (bytes : List UInt8) (sched : List Nat)
+/-- **C02, the refinement theorem.** `dict` is the static dictionary (any byte array of the right
+    size: 122,784 bytes).  For every byte string and every schedule of Read sizes (zero-length reads
+    included, the repeating last entry positive):
+    * the specification accepts ⇒ with enough fuel the model delivers exactly the specification's
+      output and ends with `io.EOF`; with any fuel it has delivered a prefix of it;
+    * the specification rejects, and input bits + output bytes < 2^24 ⇒ the model ends with another
+      error (never `io.EOF`) after delivering bytes that agree with the specification's output position
+      by position; with any fuel it has delivered a prefix of that.
+    The size cap is needed only because the SPECIFICATION gives a single-type block category a count of
+    2^24 symbols and fails when it is used up, while the Go reader (`typeLen = -1`) lets it run on; every
+    command consumes an input bit or produces a byte, so below the cap the difference cannot show. -/
+theorem C02_refines_spec (dict : ByteArray) (hdict : dict.size = 122784) (bytes : List UInt8) (sched : List Nat)
     (hs : ∀ n, sched.getLast? = some n → 0 < n) :
     (∀ n, (decode dict bytes).verdict = .ok n →
       (∀ fuel, (decode dict bytes).out.size + sched.length + 2 ≤ fuel →
@@ -243,6 +248,70 @@ theorem C02_refines_spec_partial (dict : ByteArray) (hF : CommandsSim dict) (byt
         (∀ fuel, X.length + sched.length + 2 ≤ fuel →
           (Impl.run dict fuel bytes sched).1 = X ∧ (Impl.run dict fuel bytes sched).2.1 = some e) ∧
         (∀ fuel, (Impl.run dict fuel bytes sched).1 <+: X)) :=
-  Compress.Proofs.BrImpl.refines_of_commands dict hF bytes sched hs
+  Compress.Proofs.BrImpl.refines_spec dict hdict bytes sched hs
+
+open Compress.Proofs.BrImpl Compress Compress.Brotli in
+/-- the statement of C02 on the model in one piece (`RefinesSpec`): with enough fuel the run ends with an
+    error, `io.EOF` exactly when the specification accepts, then with exactly its output, and in every
+    case with bytes that agree with the specification's output position by position. -/
+def C02_refines_spec_statement (dict : ByteArray) : Prop :=
+  ∀ (bytes : List UInt8) (sched : List Nat), (∀ n, sched.getLast? = some n → 0 < n) → RefinesSpec dict bytes sched
+
+open Compress.Proofs.BrImpl Compress Compress.Brotli in
+/-- `C02_refines_spec_statement`, proved for the inputs below the size cap. -/
+theorem C02_refines_spec_small (dict : ByteArray) (hdict : dict.size = 122784) (bytes : List UInt8) (sched : List Nat)
+    (hs : ∀ n, sched.getLast? = some n → 0 < n)
+    (hsmall : 8 * bytes.length + (decode dict bytes).out.size < 2 ^ 24) : RefinesSpec dict bytes sched :=
+  Compress.Proofs.BrImpl.refinesSpec_of dict bytes sched hsmall
+    (Compress.Proofs.BrImpl.refines_spec dict hdict bytes sched hs)
+
+open Compress.Proofs.BrImpl Compress Compress.Brotli in
+/-- **Layer (c), end to end: `C02_refines_spec` restricted to streams of metadata and uncompressed
+    meta-blocks** (`UncompressedOnly`: the specification's walk over the meta-block headers meets no
+    compressed one) — for ANY dictionary, no other hypothesis. -/
+theorem C02_refines_spec_uncompressed (dict : ByteArray) (bytes : List UInt8) (hU : UncompressedOnly bytes)
+    (sched : List Nat) (hs : ∀ n, sched.getLast? = some n → 0 < n) :
+    (∀ n, (decode dict bytes).verdict = .ok n →
+      (∀ fuel, (decode dict bytes).out.size + sched.length + 2 ≤ fuel →
+        (Impl.run dict fuel bytes sched).1 = (decode dict bytes).out.toList ∧
+        (Impl.run dict fuel bytes sched).2.1 = some .eof) ∧
+      (∀ fuel, (Impl.run dict fuel bytes sched).1 <+: (decode dict bytes).out.toList)) ∧
+    ((∀ n, (decode dict bytes).verdict ≠ .ok n) → 8 * bytes.length + (decode dict bytes).out.size < 2 ^ 24 →
+      ∃ X e, e ≠ .eof ∧ Agree X (decode dict bytes).out.toList ∧
+        (∀ fuel, X.length + sched.length + 2 ≤ fuel →
+          (Impl.run dict fuel bytes sched).1 = X ∧ (Impl.run dict fuel bytes sched).2.1 = some e) ∧
+        (∀ fuel, (Impl.run dict fuel bytes sched).1 <+: X)) :=
+  Compress.Proofs.BrImpl.refines_uncompressed dict bytes hU sched hs
+
+/-! ### the hypotheses are satisfiable -/
+
+/-- a dictionary of the right size exists (any 122,784 bytes do; the real one is loaded from /repo by the harness). -/
+example : ∃ dict : ByteArray, dict.size = 122784 := ⟨⟨Array.replicate 122784 0⟩, by simp [ByteArray.size]⟩
+
+/-- the size cap holds e.g. for the one-byte stream 0x06 (ISLAST, ISLASTEMPTY). -/
+example (dict : ByteArray) : 8 * [(0x06 : UInt8)].length + (Brotli.decode dict [0x06]).out.size < 2 ^ 24 := by
+  rw [C02_spec_last_empty dict []]; decide
+
+open Compress.Proofs.BrImpl Compress Compress.Brotli in
+/-- `UncompressedOnly` holds e.g. for the stream 0x06: WBITS = 16, then a last, empty meta-block. -/
+example : UncompressedOnly [0x06] := by
+  intro w st1 h
+  have h0 : readWindowBits { bits := Bits.ofBytes [0x06], used := 0, out := #[] } =
+      (.ok 16, { bits := [true, true, false, false, false, false, false], used := 1, out := #[] }) := by rfl
+  rw [h0] at h
+  cases h
+  exact RawOnly.lastEmpty (st1 := { bits := [false, false, false, false, false], used := 3, out := #[] }) (by rfl)
+
+open Compress.Proofs.BrImpl Compress Compress.Brotli in
+/-- a `Trace` (the hypothesis of the layer (a) theorems) exists for every input below the cap, e.g.: -/
+example (dict : ByteArray) (hdict : dict.size = 122784) : Trace dict (Impl.init [0x06]) [] .eof := by
+  have h := (Compress.Proofs.BrImpl.trace_of_compressed dict (Compress.Proofs.BrImpl.compressedSimZ dict hdict) [0x06]).1 8
+    (by rw [C02_spec_last_empty dict []])
+  rwa [C02_spec_last_empty dict []] at h
+
+open Compress.Proofs.BrImpl Compress Compress.Brotli in
+/-- the hypothesis of `C02_stream_level` is a theorem for the dictionary of the right size. -/
+example (dict : ByteArray) (hdict : dict.size = 122784) : CompressedSimZ dict :=
+  Compress.Proofs.BrImpl.compressedSimZ dict hdict
 
 end Compress.Props.C02
